@@ -1539,3 +1539,91 @@ func c04LoopIndex(l *sliceLoop) string {
 	}
 	return "?"
 }
+
+// ---- how the attributes of an RDN are visited (fourth pass) --------------------
+
+// c04AttrVisit: where the parser handles the attributes of the RDN of the current iteration, and what "the handling of
+// one attribute ran to its end" means on the control-flow graph of the function f.fn.
+//
+//	loop form:        a loop over rdn.Attributes; the attribute is the element at the loop's index, its handling an iteration
+//	                  of that loop (body -> header);
+//	first-only form:  no such loop; the attribute at constant index 0 is handled in line (or by a helper that is handed the
+//	                  RDN, its attribute list or that attribute), its handling an iteration of the RDN loop.
+//
+// The first-only form reads every attribute for the reason the loop form does, given the two obligations that are decided
+// in both forms on the same paths: an iteration over an RDN completes only under len(Attributes) <= 1 (parser/multi-valued-rdn)
+// — so index 0 is the only index there can be — and it completes only through the test under which that attribute is
+// recorded, or under len(Attributes) == 0, when there is nothing to record (parser/every-attribute-read, parser/duplicate).
+// A loop that runs at most once by the gate before it and its single unrolled iteration are the same computation.
+type c04AttrVisit struct {
+	f      *c04Frame
+	loop   *c04LoopAt   // loop form: the attribute loop (nil: first-only form)
+	x      string       // the attribute list of the current RDN, in the root frame
+	elem   string       // the attribute handled, in the root frame
+	start  int          // block of f.fn in which the handling starts
+	hdr    map[int]bool // reached: the handling ran to its end
+	blocks map[int]bool // the blocks of f.fn the handling consists of
+	none   func(l string) bool
+	// first-only form: the branch edges of f.fn that state "no attribute" in two steps — len != 1 on an edge that is
+	// dominated, within the iteration, by an edge that states len <= 1 (`if len(a) > 1 { fail }; if len(a) == 1 { handle a[0] }`)
+	noneEdges map[edgeKey]bool
+}
+
+func c04VisitByLoop(al *c04LoopAt) *c04AttrVisit {
+	return &c04AttrVisit{f: al.f, loop: al, x: al.x, elem: al.x + "[" + al.idx + "]", start: al.l.Body.Index,
+		hdr: map[int]bool{al.l.Header.Index: true}, blocks: loopBlocks(al.l.Header), none: func(string) bool { return false }}
+}
+
+// c04VisitFirstOnly: the first-only form, recognised by a read of element 0 of the attribute list of the RDN of the
+// current iteration somewhere in the call tree below the RDN loop (nil: no such read — then nothing says how the
+// attributes are visited). Whether that read is the attribute recorded, and whether it is the only attribute, is
+// decided by the obligations, not here.
+func c04VisitFirstOnly(frames []*c04Frame, rl *c04LoopAt) *c04AttrVisit {
+	x := rl.x + "[" + rl.idx + "].Attributes"
+	elem := x + "[const:0]"
+	found := false
+	in := loopBlocks(rl.l.Header)
+	for _, f := range frames {
+		if !f.under(rl.f) {
+			continue
+		}
+		for _, b := range f.fn.Blocks {
+			if f == rl.f && !in[b.Index] {
+				continue
+			}
+			for _, ins := range b.Instrs {
+				if u, ok := ins.(*ssa.UnOp); ok && u.Op == token.MUL {
+					if _, isIA := u.X.(*ssa.IndexAddr); isIA && f.up(desc(u)) == elem {
+						found = true
+					}
+				}
+			}
+		}
+	}
+	if !found {
+		return nil
+	}
+	n := "len(" + x + "),const:"
+	// the facts are about the list of this iteration: they name the loop's index, and an edge that dominates the branch
+	// and names that index lies between the header of this iteration and the branch (c04EdgeFacts)
+	noneEdges := map[edgeKey]bool{}
+	for _, b := range rl.f.fn.Blocks {
+		iff, ok := blockTerm(b).(*ssa.If)
+		if !ok || !in[b.Index] || len(b.Succs) != 2 || b.Succs[0] == b.Succs[1] || len(b.Preds) != 1 {
+			continue
+		}
+		var atMostOne bool
+		for l := range c04EdgeFacts(b.Preds[0], b) {
+			if u := rl.f.up(l); u == "LE("+n+"1)" || u == "LT("+n+"2)" {
+				atMostOne = true
+			}
+		}
+		for j := 0; j < 2 && atMostOne; j++ {
+			if rl.f.up(condLabel(iff.Cond, j == 0)) == "NE("+n+"1)" {
+				noneEdges[edgeKey{b.Index, j}] = true
+			}
+		}
+	}
+	return &c04AttrVisit{f: rl.f, x: x, elem: elem, start: rl.l.Body.Index, hdr: map[int]bool{rl.l.Header.Index: true},
+		blocks: in, none: func(l string) bool { return l == "EQ("+n+"0)" }, noneEdges: noneEdges}
+}
